@@ -4,6 +4,7 @@ FuturesPerClient = 1
 MaxThreads = 1
 Cap = 1
 AllowRetire = FALSE
+FixRetire = TRUE
 INVARIANTS AtMostOnce JoinAfterDone QueueOK
 PROPERTY Live
 CONSTANT defaultInitValue = defaultInitValue
